@@ -34,24 +34,39 @@ REQUIRED = ['dead_id_send', 'dead_id_accessors', 'isolation_reads',
 SHARD_TIMEOUT = {'quick': 500, 'thorough': 3400}
 
 
-def probe_dead(rec, sim, R, sid, V, what):
+def probe_dead(rec, sim, R, sid, V, what, rng=None):
     """send() to a dead id is a silent no-op; accessors raise KeyError; no
-    other session is touched."""
+    other session is touched. The five calls are made in a seeded order:
+    the first use of a dead id may find its closed socket still in the table
+    (every later one finds it reaped), so each call must take its turn at
+    being the first."""
     sim.quiesce()       # nothing else may be in flight between the snapshots
     before = {k: (v['queue'], v['session']) for k, v in sim.snapshot().items()
               if not v['closed']}
     n0 = len(sim.events)
-    rec.count('dead_id_send')
-    tk = sim.app_call('send', sid, 'to-dead')
-    sim.quiesce()
-    if not tk.done or tk.exc is not None:
-        V('send-to-dead-id', 'send() to a %s id: done=%r exc=%r' % (
-            what, tk.done, tk.exc))
+
+    def do_send():
+        rec.count('dead_id_send')
+        tk = sim.app_call('send', sid, 'to-dead')
+        sim.quiesce()
+        if not tk.done or tk.exc is not None:
+            V('send-to-dead-id', 'send() to a %s id: done=%r exc=%r' % (
+                what, tk.done, tk.exc))
+    calls = [('send', do_send),
+             ('get_session', lambda: sim.session_get(sid)),
+             ('save_session', lambda: sim.session_save(sid, {'x': 1})),
+             ('session()', lambda: sim.session_cm(sid, 'x', 1)),
+             ('transport', lambda: sim.server.transport(sid))]
+    if rng is not None:
+        rng.shuffle(calls)
     rec.count('dead_id_accessors')
-    for name, fn in (('get_session', lambda: sim.session_get(sid)),
-                     ('save_session', lambda: sim.session_save(sid, {'x': 1})),
-                     ('session()', lambda: sim.session_cm(sid, 'x', 1)),
-                     ('transport', lambda: sim.server.transport(sid))):
+    in_table = sid in sim.table_sids()
+    rec.count('dead_id_first_call_%s%s' % (
+        calls[0][0], '_unreaped' if in_table else ''))
+    for name, fn in calls:
+        if name == 'send':
+            fn()
+            continue
         try:
             fn()
         except KeyError:
@@ -60,7 +75,9 @@ def probe_dead(rec, sim, R, sid, V, what):
             V('dead-id-accessor-wrong-exception', '%s on a %s id raised %r' %
               (name, what, e))
             continue
-        V('dead-id-accessor-works', '%s works on a %s id' % (name, what))
+        V('dead-id-accessor-works', '%s works on a %s id (call order %r, '
+          'closed socket still in the table before the calls: %r)' % (
+              name, what, [c[0] for c in calls], in_table))
     after = {k: (v['queue'], v['session']) for k, v in sim.snapshot().items()
              if not v['closed']}
     if {k: v for k, v in after.items() if k in before} != \
@@ -152,7 +169,7 @@ def run_history(rec, case):
                     conn = [e for e in sim.events if e['ev'] == 'connect']
                     if conn and rng.random() < 0.5:
                         probe_dead(rec, sim, R, conn[-1]['sid'], V,
-                                   'rejected')
+                                   'rejected', rng)
                     continue
                 if m == 'polling-silent':
                     kill(s, 'silence')
@@ -192,6 +209,12 @@ def run_history(rec, case):
                 else:
                     R.post_raw(s, '1')
                 kill(s, 'client disconnect')
+                if rng.random() < 0.5:
+                    # first use of the id right after its end (a CLOSE by
+                    # POST leaves the closed socket in the table)
+                    sim.quiesce()
+                    probe_dead(rec, sim, R, s.sid, V, 'just-disconnected',
+                               rng)
             elif k < 0.54:
                 R.disconnect(s)
                 kill(s, 'server disconnect')
@@ -236,10 +259,10 @@ def run_history(rec, case):
                 if dead:
                     sim.quiesce()
                     probe_dead(rec, sim, R, rng.choice(dead).sid, V,
-                               'disconnected')
+                               'disconnected', rng)
                 else:
                     probe_dead(rec, sim, R, 'nosuchsidAAAAAAAAAAA', V,
-                               'unknown')
+                               'unknown', rng)
             else:
                 R.advance(rng.choice([0.5, pt, pi]))
             if rng.random() < 0.5:
